@@ -11,6 +11,7 @@
 #include "contracts/ghost_str.h"
 #include "src/lang.c"
 
+#define SPEC_PREFIX_LEN 4   /* "at least four characters long": from the property statement, not from the source */
 #ifndef KEYB
 #define KEYB 11
 #endif
@@ -31,20 +32,23 @@ static int ref_strip(const char* s, int n, char* out, int accents) {
 
 void harness(void) {
     char key[KEYB], elm[ELMB], sk[KEYB], se[ELMB];
+    for (int i = 0; i < KEYB - 1; ++i) key[i] = nondet_char();   /* explicit so that counterexamples carry the bytes */
+    for (int i = 0; i < ELMB - 1; ++i) elm[i] = nondet_char();
     key[KEYB - 1] = '\0';
     elm[ELMB - 1] = '\0';
+    const char* pk = key; const char* pe = elm;   /* the comparers are called the way bsearch calls them */
 #if defined(CMP_STR)
     int accents = 0, prefix = 0;
-    int r = compare_str(key, elm);
+    int r = compare_str_wrap(&pk, &pe);
 #elif defined(CMP_PREFIX)
     int accents = 0, prefix = 1;
-    int r = compare_prefix(key, elm, NUM_CHARS_PREFIX);
+    int r = compare_prefix_wrap(&pk, &pe);
 #elif defined(CMP_STR_NOACCENT)
     int accents = 1, prefix = 0;
-    int r = compare_str_noaccent(key, elm);
+    int r = compare_str_noaccent_wrap(&pk, &pe);
 #elif defined(CMP_PREFIX_NOACCENT)
     int accents = 1, prefix = 1;
-    int r = compare_prefix_noaccent(key, elm, NUM_CHARS_PREFIX);
+    int r = compare_prefix_noaccent_wrap(&pk, &pe);
 #endif
     CANARY();
     int nk = ref_strip(key, KEYB, sk, accents);
@@ -54,7 +58,7 @@ void harness(void) {
         if (i < nk && i < ne && sk[i] != se[i]) is_prefix = 0;
     }
     _Bool equal = is_prefix && nk == ne;
-    _Bool accept = equal || (prefix && is_prefix && nk >= NUM_CHARS_PREFIX);
+    _Bool accept = equal || (prefix && is_prefix && nk >= SPEC_PREFIX_LEN);
     __CPROVER_assert(r == -1 || r == 0 || r == 1, "cmp: result in {-1,0,1}");
     __CPROVER_assert((r == 0) == accept, "cmp: equal exactly by the acceptance rule (full word, or prefix of >= 4 base letters; accents ignored where the language has them)");
 }
